@@ -170,11 +170,43 @@ def run_group(group, repo="/repo", work=None, tier="quick", prop=None, only=None
         res["reason"] = "build failure in the scratch copy: " + "\n".join(l for l in out.split("\n") if l.startswith("error"))[:600]
         shutil.rmtree(gwork, ignore_errors=True)
         return res
-    # per-harness sections
-    secs = re.split(r"Checking harness ", out)
+    # per-harness sections.  With -j the output is interleaved: "Thread N: Checking harness X..." and later "Thread N: " + result block
     seen = {}
-    for sec in secs[1:]:
-        name = sec.split("...")[0].strip()
+    cur_by_thread = {}
+    lines = out.split("\n")
+    blocks = []   # (harness, text)
+    i = 0
+    cur_name = None
+    cur_buf = []
+    def flush():
+        if cur_name is not None and cur_buf:
+            blocks.append((cur_name, "\n".join(cur_buf)))
+    while i < len(lines):
+        ln = lines[i]
+        m = re.match(r"(?:Thread (\d+): )?Checking harness (\S+?)\.\.\.", ln)
+        if m:
+            flush(); cur_buf = []
+            tid = m.group(1)
+            if tid is None:
+                cur_name = m.group(2)
+            else:
+                cur_by_thread[tid] = m.group(2)
+                cur_name = None
+            i += 1
+            continue
+        m = re.match(r"Thread (\d+): ?$", ln)
+        if m:
+            flush(); cur_buf = []
+            cur_name = cur_by_thread.get(m.group(1))
+            i += 1
+            continue
+        if ln.startswith("Manual Harness Summary") or ln.startswith("Complete - "):
+            flush(); cur_buf = []; cur_name = None
+        if cur_name is not None:
+            cur_buf.append(ln)
+        i += 1
+    flush()
+    for name, sec in blocks:
         short = name.split("::")[-1]
         ok = "VERIFICATION:- SUCCESSFUL" in sec
         failed = "VERIFICATION:- FAILED" in sec
@@ -189,6 +221,8 @@ def run_group(group, repo="/repo", work=None, tier="quick", prop=None, only=None
         mf = re.findall(r"Failed Checks: (.*)", sec)
         if mf:
             fc = "; ".join(mf[:4])
+        if not (ok or failed):
+            continue
         seen[short] = dict(ok=ok and not cover_bad, failed=failed or cover_bad, time_s=tm, checks=checks, covers=covers, failed_check=fc + (" UNSATISFIED COVER (vacuity)" if cover_bad else ""), output=sec[-2500:])
     missing = []
     for h in harnesses:
